@@ -802,8 +802,9 @@ def run_kernels(cx, kexe, kdrv, exe, drv, cases, label):
             continue
         st["cases"] += 1
         bad = []
+        tie = [False]     # some kernel output of this case differed at a decision the exact model sees as a (near-)tie
 
-        def cmp(tag, a, b, g, allow_short=False):
+        def cmp(tag, a, b, g, allow_short=False, derived=False):
             for k, (x, y) in enumerate(zip(a, b)):
                 st["entries"] += 1
                 st["nonzero"] += int(x != 0)
@@ -811,6 +812,9 @@ def run_kernels(cx, kexe, kdrv, exe, drv, cases, label):
                     st["undefined_in_model"] += 1
                 if x != y:
                     if k < len(g) and g[k] == "1":
+                        st["excused_near_tie"] += 1
+                        tie[0] = True
+                    elif derived and tie[0]:
                         st["excused_near_tie"] += 1
                     else:
                         st["mismatch"] += 1
@@ -842,18 +846,22 @@ def run_kernels(cx, kexe, kdrv, exe, drv, cases, label):
             ranks12 = {e: i for i, e in enumerate(sorted(set(p[0] for p in x12)))}
             got12 = [(p[1], p[2]) for p in x12]
             want12 = [(f, v) for (_, f, v) in nonzero("K12F", nfQ)]
-            if got12 != want12:
+            if got12 != want12 and tie[0]:
+                st["excused_near_tie"] += 1
+            elif got12 != want12:
                 st["mismatch"] += 1
                 bad.append("xv12_: impl (face,x12) %s model %s" % (got12[:6], want12[:6]))
             got21 = [(p[0], p[2]) for p in x21]
             want21 = [(f, v) for (_, f, v) in nonzero("K12B", nfP)]
-            if got21 != want21:
+            if got21 != want21 and tie[0]:
+                st["excused_near_tie"] += 1
+            elif got21 != want21:
                 st["mismatch"] += 1
                 bad.append("xv21_: impl (face,x21) %s model %s" % (got21[:6], want21[:6]))
-        cmp("w03_ vs per-vertex Kernel02 sum", w03, [int(x) for x in m.get("W03F", "").split()], m.get("GW03F", "").strip(), c[2] == "G")
-        cmp("w30_ vs per-vertex Kernel02 sum", w30, [int(x) for x in m.get("W03B", "").split()], m.get("GW03B", "").strip(), c[2] == "G")
-        cmp("w03_ vs Winding03 model", w03, [int(x) for x in m.get("FLF", "").split()], m.get("GW03F", "").strip())
-        cmp("w30_ vs Winding03 model", w30, [int(x) for x in m.get("FLB", "").split()], m.get("GW03B", "").strip())
+        cmp("w03_ vs per-vertex Kernel02 sum", w03, [int(x) for x in m.get("W03F", "").split()], m.get("GW03F", "").strip(), c[2] == "G", True)
+        cmp("w30_ vs per-vertex Kernel02 sum", w30, [int(x) for x in m.get("W03B", "").split()], m.get("GW03B", "").strip(), c[2] == "G", True)
+        cmp("w03_ vs Winding03 model", w03, [int(x) for x in m.get("FLF", "").split()], m.get("GW03F", "").strip(), False, True)
+        cmp("w30_ vs Winding03 model", w30, [int(x) for x in m.get("FLB", "").split()], m.get("GW03B", "").strip(), False, True)
         if bad:
             cx.broke("corr:C02/kernels#%s" % cid, "%s: real kernels and exact model differ on `K %s %d ... %s %s`: %s"
                      % (label, cid, c[1], c[2], c[3][:160], "; ".join(bad[:4])))
